@@ -32,6 +32,12 @@ def check(rep, tier, seed):
             lines.append(f"flip {level} {d.hex() or '-'}")
     for raw in ("ffffffff0f0100", "ffffffff0f", "00", "-", "0000", "0500", "ffffffff0fffffffff0f", "0a03030000"):
         lines.append(f"raw {raw}")
+    # large blocks that deflate to almost nothing (a few KiB for several MiB): the reader must not bound its output by
+    # the compressed size
+    for n in ((1 << 22) + 3, 6000000) if tier == "quick" else ((1 << 22) + 3, 6000000, 1 << 25):
+        for byte in (0, 171):
+            for level in (1, 6, 9):
+                lines.append(f"rtc {level} {byte} {n} 8080808001")
     lines.append("huge 5")
     lines.append("huge 0")
     res = {}
@@ -46,7 +52,7 @@ def check(rep, tier, seed):
             why = None
             if a.startswith("panic"):
                 why = "panic"
-            elif l.startswith("rt "):
+            elif l.startswith("rt ") or l.startswith("rtc "):
                 kv = dict(x.split("=") for x in a.split()[1:])
                 n = int(kv["len"])
                 if kv["sinks"] != "true":
